@@ -115,6 +115,22 @@ pub fn check(t: &Trace<'_>, out: &mut CaseOut) -> bool {
             }
         }
     }
+    // a request that is refused with an error occupies nothing: same retained entries as before
+    for (i, op) in t.log.ops.iter().enumerate() {
+        if !matches!(op.kind, "publish0" | "publish1" | "publish2" | "subscribe" | "unsubscribe") {
+            continue;
+        }
+        use crate::exec::{ErrRepr, Outcome};
+        if !matches!(op.outcome, Outcome::Err(ErrRepr::PacketTooLarge | ErrRepr::BufferTooSmall | ErrRepr::InvalidRequest | ErrRepr::NotReady | ErrRepr::InflightExhausted | ErrRepr::Payload)) {
+            continue;
+        }
+        let (Some(b), Some(a)) = (&op.snap_before, &op.snap_after) else { continue };
+        out.count("refused_requests_checked", 1);
+        let ids = |s: &crate::exec::Snap| s.tx.retained.iter().map(|e| (e.packet_id, e.len)).collect::<Vec<_>>();
+        if ids(a) != ids(b) {
+            out.violations.push(viol("C17", format!("C17/refused-request-occupies-arena/{}", op.kind), format!("op#{} {} returned {:?} but the retained entries changed from {:?} to {:?}", i, op.kind, op.outcome, ids(b), ids(a))));
+        }
+    }
     out.count("compactions_moving_entries", compactions);
     if compactions > 0 {
         nontrivial = true;
